@@ -5,6 +5,7 @@ import SonicModel.Lemmas.DomProof
 import SonicModel.Lemmas.MetaPack
 import SonicModel.Lemmas.NodeBound
 import SonicModel.Lemmas.DomParseProof
+import SonicModel.Lemmas.NumSound
 namespace Sonic.Thm.C03
 open Sonic Gen Impl Spec
 
@@ -57,6 +58,14 @@ theorem number_tokens_are_accepted (buf : Buf) (bound w e : Nat) (neg : Bool) (h
     (parseNumber buf bound (if buf[w]? = some 45 then w + 1 else w) neg).2 = e ∧
     (parseNumber buf bound (if buf[w]? = some 45 then w + 1 else w) neg).1 ≠ .invalid :=
   DomP.parseNumber_of_number buf bound w e neg h
+
+/-- … and nothing else: whenever the digit machine does not answer `invalid` and does not stop in front of a digit (a value
+    is never followed by a digit), what it consumed is exactly a number token of the grammar (leading zero, fraction with at
+    least one digit, exponent with at least one digit; zero skipping, 17/19-digit cut-over and the 20-digit rescue included) -/
+theorem number_tokens_only (buf : Buf) (bound w : Nat) (neg : Bool) (p : PNum) (k : Nat)
+    (h : parseNumber buf bound (if buf[w]? = some 45 then w + 1 else w) neg = (p, k)) (hp : p ≠ .invalid)
+    (hnd : isDigitAt buf k = false) : Spec.number buf w = some k :=
+  DomP.number_of_parseNumber buf bound w neg p k h hp hnd
 
 /-- non-vacuity: `{"a":[1,{}],"a":null}` as text -/
 def exDoc : Buf := #[123, 34, 97, 34, 58, 91, 49, 44, 123, 125, 93, 44, 34, 97, 34, 58, 110, 117, 108, 108, 125]
